@@ -656,7 +656,9 @@ pub fn value_trees(thorough: bool) -> TreeSpace {
     // representatives: first and last of each group
     let reps: Vec<VT> = groups.iter().map(|g| g[0].clone()).collect();
     let reps2: Vec<VT> = groups.iter().flat_map(|g| if g.len() > 1 { vec![g[0].clone(), g[g.len() - 1].clone()] } else { vec![g[0].clone()] }).collect();
-    let pair_pool: &Vec<VT> = if thorough { &reps2 } else { &reps };
+    // thorough: every ordered pair of leaves
+    let pair_pool: &Vec<VT> = if thorough { &d1 } else { &reps };
+    let _ = &reps2;
 
     let mut d2: Vec<VT> = vec![];
     // tuples and enums over leaves
@@ -684,8 +686,9 @@ pub fn value_trees(thorough: bool) -> TreeSpace {
         for x in &d1 {
             d2.push(VT::Enum(d, vec![x.clone()]));
         }
-        for x in &reps {
-            for y in &reps {
+        let pool: &Vec<VT> = if thorough && d == 1 { &d1 } else { &reps };
+        for x in pool {
+            for y in pool {
                 d2.push(VT::Enum(d, vec![x.clone(), y.clone()]));
             }
         }
@@ -726,8 +729,9 @@ pub fn value_trees(thorough: bool) -> TreeSpace {
         d2.push(VT::Map(k, k, vec![(a.clone(), a.clone()), (a.clone(), z.clone())])); // duplicate key
         d2.push(VT::Map(k, k, vec![(a.clone(), z.clone()), (z.clone(), a.clone())]));
     }
-    for x in &reps {
-        for y in &reps {
+    let map_pool: &Vec<VT> = if thorough { &d1 } else { &reps };
+    for x in map_pool {
+        for y in map_pool {
             d2.push(VT::Map(x.kind(), y.kind(), vec![(x.clone(), y.clone())]));
         }
     }
